@@ -196,7 +196,16 @@ func BuildQuerySQL(db *gorm.DB) {
 								}
 
 								if join.On != nil {
-									onStmt.AddClause(join.On)
+									// the caller's conditions are one unit next to the relation's own
+									// query clauses (soft delete): an OR among them must not escape
+									on := *join.On
+									for _, expr := range on.Exprs {
+										if _, ok := expr.(clause.OrConditions); ok {
+											on.Exprs = []clause.Expression{clause.And(on.Exprs...)}
+											break
+										}
+									}
+									onStmt.AddClause(on)
 								}
 
 								if cs, ok := onStmt.Clauses["WHERE"]; ok {
